@@ -295,6 +295,148 @@ def http_body(r):
     return benc(("M", ents))
 
 
+
+# ------------------------------------------------------------------ DHT datagrams / PEX payloads
+
+OWN_ID = bytes(range(0x31, 0x31 + 20))
+
+
+def bstr(b):
+    return b"%d:" % len(b) + b
+
+
+def nest_value(kind, depth, leaf=b""):
+    """a value nested exactly `depth` containers deep ('l' lists or 'd' dictionaries)"""
+    if kind == "l":
+        return b"l" * depth + leaf + b"e" * depth
+    return b"d1:a" * (depth - 1) + b"d" + (b"1:a" + leaf if leaf else b"") + b"e" * depth
+
+
+def bdepth(t):
+    if isinstance(t, list):
+        return 1 + max([bdepth(x) for x in t] or [0])
+    if isinstance(t, tuple):
+        return 1 + max([bdepth(v) for _, v in t[1]] or [0])
+    return 0
+
+
+def dht_msg(r, y=None, t=None, node_id=None, q=None, extra_top=(), extra_a=(), extra_r=(), both=False):
+    """a DHT message as sorted raw bencode; every part may be overridden by raw bytes (already encoded)"""
+    y = r.choice([b"q", b"q", b"q", b"r", b"r", b"e", b"x", b"", b"qq", None, 7]) if y is None else y
+    t = r.choice([b"aa", b"aa", b"a", b"a", b"", rb(r, 20), rb(r, 21), rb(r, 66), rb(r, 67), rb(r, 80), None, 5]) if t is None else t
+    node_id = r.choice([rb(r, 20), rb(r, 20), rb(r, 20), OWN_ID, rb(r, 19), rb(r, 25), OWN_ID + b"x", b"", None, 9]) if node_id is None else node_id
+    q = r.choice([b"ping", b"ping", b"find_node", b"get_peers", b"announce_peer", b"bogus", None, 3]) if q is None else q
+
+    def enc(v):
+        if v is None:
+            return None
+        if isinstance(v, int):
+            return b"i%de" % v
+        return bstr(v)
+
+    def dct(ents):
+        ents = sorted((k, v) for k, v in ents if v is not None)
+        return b"d" + b"".join(bstr(k) + v for k, v in ents) + b"e"
+
+    a_ents = [(b"id", enc(node_id)), (b"target", enc(rb(r, 20)) if q == b"find_node" else None),
+              (b"info_hash", enc(rb(r, 20)) if q in (b"get_peers", b"announce_peer") else None)] + list(extra_a)
+    r_ents = [(b"id", enc(node_id))] + list(extra_r)
+    top = [(b"q", enc(q)), (b"t", enc(t)), (b"y", enc(y))] + list(extra_top)
+    if y in (b"q",) or both or r.random() < 0.15:
+        top.append((b"a", dct(a_ents)))
+    if y in (b"r",) or both or r.random() < 0.15:
+        top.append((b"r", dct(r_ents)))
+    if y == b"e" and r.random() < 0.7:
+        top.append((b"e", b"l" + enc(r.choice([201, 203, -1])) + bstr(b"oops") + b"e"))
+    return dct(top)
+
+
+def dh_case(dgs, own=OWN_ID):
+    return "DH " + own.hex() + "".join(" D %d %s" % (src, hx(d)) for src, d in dgs)
+
+
+def ref_dht(own, d):
+    """independent reading of one datagram: expected class or None when the reference does not decide.
+    'none' for anything that is not a bencoded dictionary; for canonical dictionaries nested < 128 deep:
+    ('e', 203) when t is missing, 'Q' for a well-formed query envelope."""
+    d = d[:2048]
+    try:
+        tree, n = G7.ref_decode(d)
+    except (G7.NoParse, RecursionError):
+        return "none"
+    if not (isinstance(tree, tuple) and tree[0] == "M"):
+        return "none"
+    try:
+        if G7.ref_encode(G7.normalize(tree)) != d[:n] or bdepth(tree) >= 127:
+            return None
+    except RecursionError:
+        return None
+    m = dict(tree[1])
+    t, y = m.get(b"t"), m.get(b"y")
+    if not isinstance(t, bytes):
+        return "e203"
+    if len(t) > 20:
+        return "e203"
+    if not isinstance(y, bytes):
+        return "e203"
+    if y == b"q":
+        a = m.get(b"a")
+        aid = dict(a[1]).get(b"id") if isinstance(a, tuple) else None
+        if isinstance(aid, bytes) and len(aid) >= 20 and aid[:20] != own:
+            return "Q"
+        return "e203"
+    return None
+
+
+def ref_values(d):
+    """peers of r.values for canonical messages: the leading run of 6-byte strings; None = undecided"""
+    try:
+        tree, n = G7.ref_decode(d)
+    except (G7.NoParse, RecursionError):
+        return None
+    if not (isinstance(tree, tuple) and tree[0] == "M") or G7.ref_encode(G7.normalize(tree)) != d[:n] or bdepth(tree) >= 127:
+        return None
+    rr = dict(tree[1]).get(b"r")
+    if not isinstance(rr, tuple):
+        return None
+    v = dict(rr[1]).get(b"values")
+    if not isinstance(v, list):
+        return "~"
+    out = []
+    for x in v:
+        if not (isinstance(x, bytes) and len(x) == 6):
+            break
+        out.append((4, int.from_bytes(x[:4], "big"), int.from_bytes(x[4:], "big")))
+    return show_addrs(out)
+
+
+def pex_payload(r, pool):
+    ents = []
+    x = r.random()
+    if x < 0.75:
+        ents.append((b"added", compact4(r, r.randrange(0, 7), r.choice([0, 0, 1, 5]), pool)))
+    elif x < 0.85:
+        ents.append((b"added", r.choice([5, [b"\1\2\3\4\0\1"], ("M", [])])))
+    if r.random() < 0.5:
+        ents.append((b"added.f", rb(r, r.randrange(0, 5))))
+    if r.random() < 0.3:
+        ents.append((b"dropped", compact4(r, r.randrange(0, 3))))
+    if r.random() < 0.2:
+        ents.append((r.choice([b"a", b"added6", b"zz", b"addedx", b"adde"]), r.choice([1, b"x", [1, [2]], ("M", [(b"k", 1)])])))
+    return benc(("M", ents))
+
+
+def ref_pex_added(p):
+    try:
+        tree, n = G7.ref_decode(p)
+    except (G7.NoParse, RecursionError):
+        return None
+    if not (isinstance(tree, tuple) and tree[0] == "M"):
+        return None
+    v = dict(tree[1]).get(b"added")
+    return v if isinstance(v, bytes) else b""
+
+
 # ------------------------------------------------------------------ gen
 
 def gen(seed, tier):
@@ -448,4 +590,96 @@ def gen(seed, tier):
     b0 = benc(("M", [(b"interval", 1800), (b"peers", compact4(r, 2)), (b"tracker id", b"t")]))
     for i in range(len(b0) + 1):
         add("H-prefix", "H 2 " + hx(b0[:i]))
+    # ---- DHT datagrams through the real DhtServer (envelope / type checks from the raw bytes)
+    ping = dht_msg(r, y=b"q", t=b"aa", node_id=b"\x22" * 20, q=b"ping")
+    hand = [b"", b"d", b"de", b"le", b"i1e", b"4:spam", b"hello", ping, ping + b"junk", ping[:-1], b"d1:t2:aae", b"d1:y1:qe",
+            b"d1:t2:aa1:y1:re", b"d1:t1:a1:y1:re", b"d1:t1:a1:y1:ee", b"d1:t2:aa1:y1:ee", b"d1:t1:a1:y1:xe", b"d1:t1:a1:y2:qqe",
+            b"d1:t1:a1:y0:e", b"d1:ti1e1:y1:qe", b"d1:t1:a1:yi1ee", b"d1:y1:q1:t2:aae", b"d1:t21:" + b"t" * 21 + b"e", b"d1:t67:" + b"t" * 67 + b"e",
+            b"d1:rd2:id20:" + OWN_ID + b"e1:t1:a1:y1:re", b"d1:rd2:id19:" + OWN_ID[:19] + b"e1:t1:a1:y1:re", b"d1:rd2:idi5ee1:t1:a1:y1:re",
+            b"d1:ad2:id20:" + OWN_ID + b"e1:q4:ping1:t2:aa1:y1:qe", b"d1:ad2:id20:" + b"\x22" * 20 + b"e1:t2:aa1:y1:qe",
+            b"d1:eli201e4:oopse1:t1:a1:y1:ee", b"d1:eli201e4:oopse1:t2:ab1:y1:ee", b"d1:v4:abcd1:t1:a1:y1:qe", b"\0" * 40, b"d" * 300, b"l" * 300]
+    for d in hand:
+        add("DH-hand", dh_case([(2, d)]))
+    for i in range(len(ping) + 1):
+        add("DH-prefix", dh_case([(2, ping[:i])]))
+    for _ in range(400 if not thorough else 5000):
+        dgs = []
+        for _ in range(r.randrange(1, 4)):
+            extra_top, extra_a, extra_r = [], [], []
+            if r.random() < 0.25:
+                extra_top.append((r.choice([b"v", b"x", b"zz", b"ip", b"b"]), r.choice([bstr(b"LT01"), b"i5e", b"l1:ae", b"d1:k1:ve", nest_value("l", r.randrange(1, 6))])))
+            if r.random() < 0.2:
+                extra_r.append((b"values", b"l" + b"".join(b"6:" + rec4(r) for _ in range(r.randrange(0, 4))) + b"e"))
+            if r.random() < 0.2:
+                extra_r.append((b"nodes", bstr(rb(r, r.randrange(0, 60)))))
+            if r.random() < 0.1:
+                extra_a.append((b"port", r.choice([b"i6881e", b"i0e", b"1:x"])))
+            d = dht_msg(r, extra_top=extra_top, extra_a=extra_a, extra_r=extra_r, both=r.random() < 0.1)
+            x = r.random()
+            if x < 0.1:
+                d = d[:r.randrange(len(d) + 1)]
+            elif x < 0.2:
+                p = r.randrange(len(d))
+                d = d[:p] + bytes([r.choice(b"dlei:0123456789-\0qrt")]) + d[p + 1:]
+            elif x < 0.23:
+                d = rb(r, r.randrange(0, 40))
+            elif x < 0.26:
+                d += rb(r, 5)
+            dgs.append((r.randrange(2, 6), d))
+        add("DH-rand", dh_case(dgs))
+    # values / unknown keys / raw keys nested around the 128-entry stack of the skip reader, in front of a well-formed ping
+    for depth in (1, 2, 64, 125, 126, 127, 128, 129, 130, 200):
+        for kind in "ld":
+            nv = nest_value(kind, depth)
+            for where in ("values", "unknown", "v", "a-unknown", "e", "nodes"):
+                ex = dict(extra_top=[], extra_a=[], extra_r=[])
+                if where == "values":
+                    ex["extra_r"] = [(b"values", nv)]
+                elif where == "nodes":
+                    ex["extra_r"] = [(b"nodes", nv)]
+                elif where == "unknown":
+                    ex["extra_top"] = [(b"x", nv)]
+                elif where == "v":
+                    ex["extra_top"] = [(b"v", nv)]
+                elif where == "e":
+                    ex["extra_top"] = [(b"e", b"l" + nv + b"e")]
+                else:
+                    ex["extra_a"] = [(b"zz", nv)]
+                add("DH-nest", dh_case([(2, dht_msg(r, y=b"q", t=b"aa", node_id=b"\x22" * 20, q=b"ping", both=True, **ex))]))
+                add("DV-nest", "DV " + hx(dht_msg(r, y=b"r", t=b"a", node_id=b"\x22" * 20, q=3, both=True, **ex)))
+    for total in (2040, 2047, 2048, 2049, 2100, 3000):   # at and beyond the 2048-byte receive buffer
+        pad = total - len(dht_msg(r, y=b"q", t=b"aa", node_id=b"\x22" * 20, q=b"ping", extra_top=[(b"x", bstr(b""))])) - 3
+        add("DH-big", dh_case([(2, dht_msg(r, y=b"q", t=b"aa", node_id=b"\x22" * 20, q=b"ping", extra_top=[(b"x", bstr(b"p" * pad))]))]))
+    # ---- what a matched reply hands to the peer / node parsers
+    for _ in range(300 if not thorough else 4000):
+        n = r.randrange(0, 6)
+        vals = [b"6:" + rec4(r) for _ in range(n)]
+        x = r.random()
+        if x < 0.3 and vals:
+            vals[r.randrange(len(vals))] = r.choice([b"18:" + rec6(r), b"5:abcde", b"7:abcdefg", b"i5e", b"le", b"06:abcdef", b"0:"])
+        ex_r = []
+        if r.random() < 0.85:
+            ex_r.append((b"values", r.choice([b"l" + b"".join(vals) + b"e"] * 6 + [b"6:abcdef", b"i1e", b"de"])))
+        if r.random() < 0.6:
+            ex_r.append((b"nodes", r.choice([bstr(rb(r, r.randrange(0, 90))), bstr(rb(r, 26 * r.randrange(0, 4))), b"i5e", b"le"])))
+        d = dht_msg(r, y=b"r", t=b"a", node_id=rb(r, 20), q=3, extra_r=ex_r)
+        if r.random() < 0.1:
+            d = d[:r.randrange(len(d) + 1)]
+        add("DV", "DV " + hx(d))
+    # ---- ut_pex from the raw extension payload
+    for _ in range(300 if not thorough else 4000):
+        pool4 = [rb(r, 4) for _ in range(3)] + SPECIAL4[:3]
+        ps = []
+        for _ in range(r.randrange(1, 4)):
+            p = pex_payload(r, pool4)
+            x = r.random()
+            if x < 0.1:
+                p = p[:r.randrange(len(p) + 1)]
+            elif x < 0.15:
+                p = rb(r, r.randrange(0, 12))
+            ps.append(hx(p))
+        add("PX", "PX %d " % r.choice([0, 1, 2, 3, 5, 1000]) + " ".join(ps))
+    for depth in (126, 127, 128, 129):
+        add("PX-nest", "PX 10 " + hx(b"d1:a" + nest_value("l", depth) + b"5:added6:\1\2\3\4\0\x50e"))
+        add("PX-nest", "PX 10 " + hx(b"d5:added" + nest_value("d", depth) + b"e") + " " + hx(b"d5:added6:\1\2\3\4\0\x50e"))
     return cases, stats
